@@ -89,6 +89,24 @@ def rep_cases():
     return out
 
 
+def later_failure_cases():
+    """a first read on the node, then some servers start failing every call, then a second read on the SAME
+    node: shares the finder learned of after the first read's last segment must still be known.  Every share is
+    stored twice (2-of-3 on 6 servers); every subset of servers that leaves >= k distinct shares reachable fails."""
+    out = []
+    pl = {"0": [0, 3], "1": [1, 4], "2": [2, 5]}
+    S = 6
+    for r in range(1, S):
+        for dead in itertools.combinations(range(S), r):
+            alive_shares = set(int(sh) for sh, svs in pl.items() if any(sv not in dead for sv in svs))
+            if len(alive_shares) < BASE["k"]:
+                continue
+            for first in ([[0, 5]], [[0, None]]):
+                out.append(dict(BASE, S=S, placement=pl, damage={}, server_kind={}, groups=[first, [[0, None]]],
+                                fail_after_group={str(sv): 0 for sv in dead}))
+    return out
+
+
 def replay(case):
     trace, viol, obs = lib_imm.run_reads(case["case"], case["prefix"], boot.SEED)
     return viol
@@ -97,6 +115,9 @@ def replay(case):
 def run(tier, seed):
     cases = all_cases(tier) + k3_cases(tier)
     res = common.pmap(lib_imm.explore_chunk, cases, (seed, 0, 0, None, "C03"))
+    lf = later_failure_cases()
+    res.merge(common.pmap(lib_imm.explore_chunk, lf, (seed, 0, 0, None, "C03")))
+    res.merge(common.pmap(lib_imm.explore_chunk, [dict(c, batch=True) for c in lf[::2]], (seed, 0, 0, None, "C03")))
     n0 = res.counts.get("executions", 0)
     reps = rep_cases()
     faults = ["error", "disconnect"]
@@ -108,7 +129,7 @@ def run(tier, seed):
         sel = [dict(c, fault_kinds=faults if f else []) for c in sel]
         res.merge(common.pmap(lib_imm.explore_chunk, sel, (seed, d, f, 8000, "C03"), chunks=len(sel)))
         desc.append("%d cases at d<=%d,f<=%d%s" % (len(sel), d, f, " (several answers per reactor turn)" if sel and sel[0].get("batch") else ""))
-    cov = lib_imm.coverage_from(res, "all %d placement x damage x server-kind cases at the default schedule; then %s (d = deviations incl. early OVERDUE timers, f = injected faults %r)" % (n0, "; ".join(desc), faults),
+    cov = lib_imm.coverage_from(res, "all %d placement x damage x server-kind cases (incl. read / servers start failing / read again on the same node, every server subset that leaves k shares) at the default schedule; then %s (d = deviations incl. early OVERDUE timers, f = injected faults %r)" % (n0, "; ".join(desc), faults),
                                 {"deviation_bound_completed": max(p[1] for p in plan), "fault_bound_completed": max(p[2] for p in plan)})
     return res, cov
 
